@@ -23,7 +23,7 @@ func failsBatch(cands []RunCfg, key string, crash bool) []bool {
 			defer func() { <-sem }()
 			res, wo := runItems([]workItem{{Cfg: cands[i]}}, false)
 			if crash {
-				out[i] = wo.crashed && "C15/a/crash:"+crashShape(wo.stderr) == key
+				out[i] = wo.crashed && strings.HasSuffix(key, "/crash:"+crashShape(wo.stderr))
 				return
 			}
 			if len(res) == 1 {
@@ -187,7 +187,11 @@ func replay(prop, path string) int {
 	res, wo := runItems([]workItem{{Cfg: rf.Cfg}}, true)
 	if wo.crashed {
 		if strings.Contains(wo.stderr, "panic:") || strings.Contains(wo.stderr, "fatal error:") {
-			fmt.Printf("VIOLATION property=C15 replay=%s\n  %s\n", path, crashSummary(wo.stderr))
+			cp := "C15"
+			if rf.Property == "C20" || rf.Property == "C11" {
+				cp = rf.Property
+			}
+			fmt.Printf("VIOLATION property=%s replay=%s\n  %s\n", cp, path, crashSummary(wo.stderr))
 			return 1
 		}
 		fmt.Fprintf(os.Stderr, "%s\n", tail(wo.stderr, 3000))
